@@ -36,6 +36,10 @@ def family():
        A.v4_header("GET", "/bkt", pairs=[("a1", "x"), ("a:b", "y"), ("kz", ""), ("k|", "")]))
     ok("v4:utf8-key", "UTF-8 key with space, plus, percent", A.v4_header("GET", "/bkt/ké y+%/中"))
     ok("v4:header-inner-spaces", "signed header with sequential inner spaces", A.v4_header(extra_headers=[("x-amz-meta-a", "a   b  c")]))
+    ok("v4:header-inner-tab", "signed header value with a horizontal tab inside (kept as it is: only spaces are collapsed)",
+       A.v4_header(extra_headers=[("x-amz-meta-a", "alpha\tbeta  gamma")]))
+    no("v4:alt-tab-for-space", "a space of a signed header value replaced by a horizontal tab after signing",
+       A.v4_header(extra_headers=[("x-amz-meta-a", "alpha beta")], mutate=lambda rq: A.set_header(rq, "x-amz-meta-a", lambda v: "alpha\tbeta")))
     ok("v4:header-repeated", "signed header sent twice", A.v4_header(extra_headers=[("x-amz-meta-a", "1"), ("x-amz-meta-a", "2")]))
     ok("v4:header-repeated-desc", "signed header sent twice, values in descending order (joined in the order sent)",
        A.v4_header(extra_headers=[("x-amz-meta-a", "zeta"), ("x-amz-meta-a", "alpha")]))
@@ -114,6 +118,15 @@ def canonical(rep, presigned=False):
                            what, n_paths, "" if presigned else "; string to sign likewise"), "rsx(precise)+z3", "holds", time.time() - t0, queries=n_paths)
 
 
+def header_value_rule(rep, presigned):
+    """the value canonicaliser (uninterpreted in the precise-mode obligation above) decided on symbolic character classes"""
+    import hvcanon
+    f = hvcanon.check(rep, 6)
+    if f:
+        res = rep.violation("canon:header-value", f["what"], rep.save_cex("header_value", f), confirmed=family_deviates(rep, presigned))
+        rep.obligation(f["name"], "rsx+z3", res, f["time"], states=f["paths"])
+
+
 def family_deviates(rep, presigned):
     """native confirmation of a canonicalisation counterexample: some reference-signed request of the family is judged wrongly"""
     from vlib import replay
@@ -134,6 +147,7 @@ def run(rep, tier):
     rep.encoded("crates/s3s/src/sig_v4/amz_content_sha256.rs", "AmzContentSha256::parse (Kani)")
     rep.encoded("crates/s3s/src/sig_v4/methods.rs", "create_canonical_request, create_string_to_sign, calculate_signature (family only)")
     canonical(rep, presigned=False)
+    header_value_rule(rep, False)
     sigprops.check_paths(rep, "v4-header", "C05 paths")
     kspec.run_spec(rep, "C05", tier, budget_s=300)
     sigprops.run_family(rep, "C05", family(), label="sigv4-header family")
